@@ -188,6 +188,10 @@ def main():
                     else:
                         nodes = G.smooth_float_net(rnd, 3, n + 1)
                     add("length", nodes=nodes, family=fam)
+        # wiggly nets: the speed |B'(s)| has several sharp local features, the adaptive rule has to bisect repeatedly
+        for n in range(3, 13):
+            for _ in range(6 if not thorough else 40):
+                add("length", nodes=G.int_net(rnd, 2, n + 1, 4), family="wiggly")
         add("length", nodes=[[Fr(3)], [Fr(4)]], family="degree0")
 
     # ---- model queries
